@@ -193,34 +193,32 @@ func (l *Lexer) readChar() byte {
 	return ch
 }
 
-func hexCharToHex(ch byte) byte {
+// hexCharToHex returns the value of a hex digit and whether it is one.
+func hexCharToHex(ch byte) (byte, bool) {
 	switch {
 	case '0' <= ch && ch <= '9':
-		return ch - '0'
+		return ch - '0', true
 	case 'a' <= ch && ch <= 'f':
-		return ch - 'a' + 10
+		return ch - 'a' + 10, true
 	case 'A' <= ch && ch <= 'F':
-		return ch - 'A' + 10
+		return ch - 'A' + 10, true
 	}
-	return 0
+	return 0, false
 }
 
-func (l *Lexer) readHex() byte {
-	hb := hexCharToHex(l.readChar()) << 4
-	lb := hexCharToHex(l.readChar())
-	return hb | lb
-}
-
-func (l *Lexer) readUnicode16() rune {
-	hb := int(l.readHex()) << 8
-	lb := int(l.readHex())
-	return rune(hb | lb)
-}
-
-func (l *Lexer) readUnicode32() rune {
-	hb := l.readUnicode16() << 16
-	lb := l.readUnicode16()
-	return hb | lb
+// readHexDigits reads up to n hex digits. It stops in front of anything else, so that a short escape
+// like "\x" doesn't swallow the closing quote (and what follows) as if they were digits.
+func (l *Lexer) readHexDigits(n int) rune {
+	var v rune
+	for range n {
+		d, ok := hexCharToHex(l.peekChar())
+		if !ok {
+			break
+		}
+		v = v<<4 | rune(d)
+		l.pos++
+	}
+	return v
 }
 
 func (l *Lexer) readString(sep byte) (string, bool) {
@@ -247,13 +245,13 @@ func (l *Lexer) readString(sep byte) (string, bool) {
 			case 'v':
 				ch = '\v'
 			case 'u':
-				buf.WriteRune(l.readUnicode16())
+				buf.WriteRune(l.readHexDigits(4))
 				continue
 			case 'U':
-				buf.WriteRune(l.readUnicode32())
+				buf.WriteRune(l.readHexDigits(8))
 				continue
 			case 'x':
-				ch = l.readHex()
+				ch = byte(l.readHexDigits(2))
 			}
 		case ch == sep:
 			return buf.String(), true
